@@ -141,17 +141,32 @@ def check_repeat(ctx, cfg, db, name, n, kind):
             reps = [s for s in a.assigns if s["val"] == ("A", "array", ())]
             r_ok = len(reps) == 1 and once
         if kind == "ty":
-            dt = [c for c in a.calls if c.fn.endswith("__do_transmute")]
-            c_ok = len(dt) == 1 and r_ok and dt[0].args[0] == reps[0]["val"] and a.tenv.length(dt[0].targs[1]) == Poly.const(n) and all(r["val"] == dt[0].ret for r in a.returns)
-            # the local const fn is const_transmute::<[T; n], GenericArray<T, N>> and nothing else
-            hb = db.get("__do_transmute") or next((x for x in db.bodies if x["path"].startswith(b["path"] + "::__do_transmute")), None)
+            # the repeat array goes, whole, through ONE reinterpreting helper whose result is the macro's value. The helper is either the
+            # function the expansion defines locally or a (hidden) function of the library; either way its body must be the size-guarded
+            # const_transmute of its parameter (C01.T) and it must be const
+            dt = [c for c in a.calls if r_ok and c.args and c.args[0] == reps[0]["val"]]
+            c_ok = len(dt) == 1 and r_ok and any(t.get("k") == "adt" and a.tenv.length(t) is not None for t in [dt[0].targs[1]] if len(dt[0].targs) > 1) if dt else False
+            c_ok = bool(dt) and len(dt) == 1 and a.tenv.length(dt[0].targs[1]) == Poly.const(n) and all(r["val"] == dt[0].ret for r in a.returns)
             h_ok = False
-            if hb is not None:
-                ha = analyze(db, hb)
-                ct = [c for c in ha.calls if c.fn.endswith("const_transmute")]
-                h_ok = len(ct) == 1 and len(ha.calls) == 1 and ct[0].args[0] == ("V", "arg", 1) and all(r["val"] == ct[0].ret for r in ha.returns) and hb.get("const")
+            hname = dt[0].fn.split("::")[-1] if dt else "?"
+            if dt:
+                lib = ctx.db(cfg)
+                hb = None
+                for dbx in (db, lib):
+                    for pth in (dt[0].res, dt[0].fn):
+                        hb = hb or dbx.by_path.get(pth) or dbx.by_path.get(pth.replace("generic_array::", "", 1) if pth.startswith("generic_array::") else pth)
+                    hb = hb or next((x for x in dbx.bodies if x["path"].startswith(b["path"] + "::") and x["path"].endswith("::" + hname)), None)
+                    if hb is None and dbx is lib:
+                        cands = [x for x in dbx.bodies if x["kind"] in ("Fn", "AssocFn") and x["path"].endswith("::" + hname)]
+                        hb = cands[0] if len(cands) == 1 else None
+                    if hb is not None:
+                        ha = analyze(dbx, hb)
+                        ct = [c for c in ha.calls if c.fn.endswith("const_transmute")]
+                        others = [c.fn for c in ha.calls if c not in ct and not c.fn.startswith("core::panicking::")]
+                        h_ok = len(ct) == 1 and not others and ct[0].args[0] == ("V", "arg", 1) and bool(ha.returns) and all(r["val"] == ct[0].ret for r in ha.returns) and bool(hb.get("const"))
+                        break
             ok = c_ok and h_ok
-            det = "x() once: %s; [v; %d] repeat: %s; passed to __do_transmute::<_, U%d>: %s; whose body is const fn { const_transmute(arr) }: %s" % (once, n, r_ok, n, c_ok, h_ok)
+            det = "x() once: %s; [v; %d] repeat: %s; passed whole to %s with N = U%d and its result is the value: %s; whose body is const fn { const_transmute(arr) } (size-guarded, C01.T): %s" % (once, n, r_ok, hname, n, c_ok, h_ok)
         else:
             fa = [c for c in a.calls if c.fn.endswith("GenericArray::<T, N>::from_array")]
             ok = len(fa) == 1 and r_ok and fa[0].args[0] == reps[0]["val"] and fa[0].targs[-1].get("v") == n and a.tenv.length(fa[0].targs[1]) == Poly.const(n) and all(r["val"] == fa[0].ret for r in a.returns)
